@@ -125,3 +125,82 @@ impl std::future::Future for YieldPoint {
         std::task::Poll::Pending
     }
 }
+
+/// Datagrams a simulator feeds to the local SRT listener of the real event loop.
+pub struct ListenerQueue {
+    pub queue: std::sync::Mutex<std::collections::VecDeque<io::Result<(Vec<u8>, SocketAddr)>>>,
+    pub notify: tokio::sync::Notify,
+    /// Number of `recv_from` calls that returned a queued item.
+    pub taken: std::sync::atomic::AtomicU64,
+}
+
+impl ListenerQueue {
+    pub fn new() -> std::sync::Arc<Self> {
+        std::sync::Arc::new(ListenerQueue {
+            queue: std::sync::Mutex::new(std::collections::VecDeque::new()),
+            notify: tokio::sync::Notify::new(),
+            taken: std::sync::atomic::AtomicU64::new(0),
+        })
+    }
+    pub fn push(&self, item: io::Result<(Vec<u8>, SocketAddr)>) {
+        self.queue.lock().unwrap().push_back(item);
+        self.notify.notify_one();
+    }
+}
+
+thread_local! {
+    static LISTENER: RefCell<Option<std::sync::Arc<ListenerQueue>>> = const { RefCell::new(None) };
+}
+
+/// Install (or with `None` remove) the listener source for this thread.
+pub fn set_listener_source(q: Option<std::sync::Arc<ListenerQueue>>) {
+    LISTENER.with(|l| *l.borrow_mut() = q);
+}
+
+/// Shadowing wrapper for the local SRT listener inside `run_sender_with_config`:
+/// derefs to the real socket, but `recv_from` / `send_to` consult the installed
+/// simulator seams first.
+pub struct ListenerShim {
+    inner: std::sync::Arc<tokio::net::UdpSocket>,
+    source: Option<std::sync::Arc<ListenerQueue>>,
+}
+
+impl ListenerShim {
+    pub fn new(inner: std::sync::Arc<tokio::net::UdpSocket>) -> Self {
+        let source = LISTENER.with(|l| l.borrow().clone());
+        Self { inner, source }
+    }
+
+    pub async fn recv_from(&self, buf: &mut [u8]) -> io::Result<(usize, SocketAddr)> {
+        let Some(src) = &self.source else {
+            return self.inner.recv_from(buf).await;
+        };
+        loop {
+            let item = src.queue.lock().unwrap().pop_front();
+            if let Some(item) = item {
+                src.taken
+                    .fetch_add(1, std::sync::atomic::Ordering::SeqCst);
+                return item.map(|(bytes, addr)| {
+                    let n = bytes.len().min(buf.len());
+                    buf[..n].copy_from_slice(&bytes[..n]);
+                    (n, addr)
+                });
+            }
+            src.notify.notified().await;
+        }
+    }
+
+    pub async fn send_to(&self, buf: &[u8], target: SocketAddr) -> io::Result<usize> {
+        if let Some(r) = intercept_client(ClientCall::SendTo, buf, target) {
+            return r;
+        }
+        self.inner.send_to(buf, target).await
+    }
+}
+
+impl std::ops::Deref for ListenerShim {
+    type Target = tokio::net::UdpSocket;
+    fn deref(&self) -> &tokio::net::UdpSocket {
+        &self.inner
+    }
+}
